@@ -128,7 +128,30 @@ def run_case(case, R):
                 R.cls("op:" + name)
                 n_exp, n_seen = len(expected), len(w.acc.all_requests)
                 try:
-                    if name == "list":
+                    if name == "par":
+                        # several operations overlapping in time: they queue behind one another; each must go out with its own bytes
+                        coros = []
+                        for sub in op[1]:
+                            if sub[0] == "raw_get":
+                                expected.append({"method": "GET", "target": sub[1], "no_body": True})
+                                coros.append(p.connection.get(sub[1]))
+                            elif sub[0] == "raw_put_json":
+                                expected.append({"method": "PUT", "target": sub[1], "ctype": "application/hap+json", "body_json": sub[2]})
+                                coros.append(p.connection.put_json(sub[1], sub[2]))
+                            elif sub[0] == "raw_post":
+                                expected.append({"method": "POST", "target": sub[1], "ctype": "application/pairing+tlv8", "body_bytes": bytes(sub[2])})
+                                coros.append(p.connection.post(sub[1], bytes(sub[2])))
+                            elif sub[0] == "get":
+                                ids = [tuple(x) for x in sub[1]]
+                                expected.append({"method": "GET", "ids": sorted(set(ids)), "no_body": True})
+                                coros.append(p.get_characteristics(ids))
+                            elif sub[0] == "put":
+                                items = [(a, i, v) for a, i, v in sub[1]]
+                                expected.append({"method": "PUT", "target": "/characteristics", "ctype": "application/hap+json",
+                                                 "body_json": {"characteristics": [{"aid": a, "iid": i, "value": v} for a, i, v in items]}, "item_keys": ["aid", "iid", "value"]})
+                                coros.append(p.put_characteristics(items))
+                        await asyncio.gather(*coros, return_exceptions=True)
+                    elif name == "list":
                         expected.append({"method": "GET", "target": "/accessories", "no_body": True})
                         await p.list_accessories_and_characteristics()
                     elif name == "get":
@@ -264,6 +287,22 @@ IDSETS = st.lists(st.sampled_from(ALL_IDS + [(3, 1), (1, 65535), (17, 300)]), mi
 def op(draw):
     name = draw(st.sampled_from(["move", "list", "get", "get", "put", "put", "subscribe", "unsubscribe", "identify", "list_pairings", "add_pairing",
                                  "remove_pairing", "image", "raw_get", "raw_put_json", "raw_post_json", "raw_post", "raw_put"]))
+    if name == "move" and draw(st.booleans()):
+        subs = []
+        for j in range(draw(st.integers(3, 5))):
+            k_ = draw(st.sampled_from(["raw_get", "raw_put_json", "raw_post", "get", "put"]))
+            if k_ == "raw_get":
+                subs.append([k_, "/x/%d" % j])
+            elif k_ == "raw_put_json":
+                subs.append([k_, "/x/%d" % j, draw(st.sampled_from([1, True, "x", [1, 2], {"a": None}, 2.5, "ü", {"k": [1, {"b": "c d"}]}]))])
+            elif k_ == "raw_post":
+                subs.append([k_, "/x/%d" % j, draw(st.binary(min_size=1, max_size=40))])
+            elif k_ == "get":
+                subs.append([k_, draw(IDSETS)])
+            else:
+                ids_ = draw(st.lists(st.sampled_from(WRITABLE), min_size=1, max_size=3, unique=True))
+                subs.append([k_, [[a, i, draw(st.sampled_from([True, False, 1, 0]))] for a, i in ids_]])
+        return ["par", subs]
     if name == "get":
         return [name, draw(IDSETS), draw(st.sampled_from(["list", "set", "shared", "shared", "tuple"]))]
     if name == "put":
@@ -298,6 +337,9 @@ def enum_fixed(tier):
     for a, b in (("v4", "v6"), ("v6", "v4"), ("v4", "v4b"), ("v6scoped", "v6full")):
         yield {"host": a, "host2": b, "k": 2, "ops": [["get", [[1, 9]], "list"], ["move"], ["get", [[1, 9], [2, 10]], "list"], ["put", [[1, 9, True]]], ["move"], ["list"],
                                                    ["raw_post", "/x", b"\x01\x02"]]}
+    for hk in ("v4", "v6scoped"):
+        yield {"host": hk, "k": 5, "ops": [["par", [["raw_get", "/x/1"], ["raw_put_json", "/x/2", {"a": 1}], ["raw_post", "/x/3", b"\x01\x02"], ["raw_get", "/x/4"]]],
+                                           ["par", [["get", [[1, 9]]], ["put", [[1, 10, 5]]], ["get", [[1, 9], [2, 10]]], ["put", [[1, 9, True]]]]], ["list"]]}
     yield {"host": "v6", "k": 4, "ops": [["get", [[1, 9], [1, 10]], "shared"], ["get", [[1, 9], [1, 10], [2, 10]], "shared"], ["get", [[1, 9]], "shared"],
                                          ["get", [[1, 9]], "tuple"], ["get", [[2, 9], [1, 9]], "shared"]]}
     yield {"host": "v4", "k": 3, "ops": [["put", [[1, 9, 2**64]]], ["put", [[1, 10, [1, {"a": -2**63 - 1}]]]], ["raw_put_json", "/x", {"n": 10**30}], ["raw_post_json", "/x", [2**64 + 1]]]}
